@@ -572,7 +572,7 @@ impl<'a> G<'a>
             x if x == D::Remove as usize => WOp::Remove(s, self.comp()),
             x if x == D::TriggerMutation as usize => WOp::TriggerMutation(s, self.comp()),
             x if x == D::Insert as usize => WOp::Insert(s, self.comp(), self.val()),
-            x if x == D::Gc as usize => { if driver && self.r.chance(12) { WOp::ReactorBulk(self.r.range(30, 140) as u16, self.r.below(2) as u8) } else { WOp::Gc } }
+            x if x == D::Gc as usize => { if driver && self.r.chance(12) { if self.r.chance(40) { WOp::ReactorBulk(self.r.range(1, 5) as u16, 2 + self.r.below(2) as u8) } else { WOp::ReactorBulk(self.r.range(30, 140) as u16, self.r.below(2) as u8) } } else { WOp::Gc } }
             x if x == D::Poll as usize => WOp::Poll,
             x if x == D::Flush as usize => WOp::Flush,
             x if x == D::KillInst as usize => { let t = self.target(me); if self.insts.get(t as usize).map(|d| d.rc).unwrap_or(false) && self.r.chance(65) { WOp::DropInstSig(t) } else { WOp::KillInst(t) } }
@@ -875,6 +875,8 @@ pub fn generate(seed: u64, base: &Cfg) -> Program
                 let gc_after = matches!(wop, WOp::DropSysRc(_));
                 // a system inserted into an entity, called, inserted *again* into the same entity (a new registration: fresh state,
                 // possibly another function) and called again
+                // the strip variants hide their own polls from the trace: a collection and a poll in front leave nothing else pending
+                if matches!(wop, WOp::ReactorBulk(_, m) if m >= 2) { steps.push(Step::Direct(WOp::Gc)); steps.push(Step::Direct(WOp::Poll)); }
                 let again = match wop { WOp::InsertSys(k, s, key) if k < 2 && g.r.chance(50) => Some((k, s, key)), _ => None };
                 steps.push(Step::Direct(wop));
                 if gc_after { steps.push(Step::Direct(WOp::Gc)); }
